@@ -237,7 +237,9 @@ int __wrap_close(int fd)
 	if (vk_active)
 		for (int i = 0; i < ntfd; i++)
 			if (tfds[i].fd == fd) { tfds[i] = tfds[--ntfd]; break; }
-	return __real_close(fd);
+	int r = __real_close(fd);
+	if (r < 0 && vk_active && vk_hooks.close_failed) { int e = errno; vk_hooks.close_failed(fd, e); errno = e; }
+	return r;
 }
 
 /* ------------------------------------------------------------------ optional system calls */
